@@ -78,7 +78,7 @@ def json_case(draw):
             'follow': draw(st.booleans())}
 
 
-@PROP.given('builtin-json', lambda tier: json_case(), quick=1200, thorough=50000, shards_quick=8)
+@PROP.given('builtin-json', lambda tier: json_case(), quick=3000, thorough=50000, shards_quick=8)
 def builtin_json(case, note):
     data = case['lead'].encode() + case['raw'] + b'\x00' * case['nuls']
     sec, phc = mk_section(case['kind'], case['ver'], 1, 0x2000, data, BMC)
@@ -133,7 +133,7 @@ def expected_text_lines(lines):
     return [''.join(c if 0x20 <= ord(c) <= 0x7E else '.' for c in l) for l in lines]
 
 
-@PROP.given('builtin-text', lambda tier: text_case(), quick=1200, thorough=50000, shards_quick=8)
+@PROP.given('builtin-text', lambda tier: text_case(), quick=3000, thorough=50000, shards_quick=8)
 def builtin_text(case, note):
     text = '\n'.join(case['lines'])
     data = text.encode('utf-8') + b'\x00' * case['nuls']
@@ -202,7 +202,7 @@ def fallback_case(draw, tier):
     return c
 
 
-@PROP.given('fallbacks', lambda tier: fallback_case(tier), quick=2000, thorough=60000, shards_quick=8)
+@PROP.given('fallbacks', lambda tier: fallback_case(tier), quick=6000, thorough=60000, shards_quick=8)
 def fallbacks(case, note):
     fb = case['fallback']
     payload = case['payload']
